@@ -82,7 +82,7 @@ class C11(Prop):
     NEED_BINS = True
     PER_CASE_TIMEOUT = 150.0
     THEOREMS = ["C11_fifo_order", "C11_splice", "C11_file_prefix", "C11_schedule_independent", "C11_offsets_address_sections",
-                "C11_splice_bigwig", "C11_progress", "C11_completion", "C11_await_never_blocks", "C11_buffer_contract",
+                "C11_splice_bigwig", "C11_progress", "C11_completion", "C11_await_never_blocks", "C11_buffer_contract", "C11_lanes_splice",
                 "C11_converter_order", "C11_converter_progress", "C11_converter_completion", "C11_converter_await_never_blocks"]
     RULE = ("inputs: 1-10 chromosomes (names whose input, lexicographic and id order differ), per chromosome up to 40 sorted items, "
             "items_per_slot mostly 1/2/3/7 so that a chromosome has many sections, block sizes 2..256, zoom modes auto/small/manual/none, "
@@ -101,7 +101,7 @@ class C11(Prop):
                "tokio, futures/crossbeam channels, AtomicCell, Condvar: assumed to implement the transitions of Model/Pipeline.v (validated by the runs)"]
     ASSUMPTIONS = ["the staging buffer is abstracted by its delivery theorem (C12), re-proved for this use as C11_buffer_contract",
                    "no I/O error on the sink or the temporary files",
-                   "the zoom lanes are the same protocol per level and are covered by the byte comparison only",
+                   "zoom lanes: safety per lane is proved by projection (C11_lanes_splice); progress of the multi-lane machine is not proved",
                    "f32 -0.0/NaN/inf are not generated"]
 
     # ------------------------------------------------------------------ generation
